@@ -110,6 +110,14 @@ def run(chk):
     ix, cg, te = c.index, c.cg, c.te
     ps = ix.func('parser.parse_segments')
     gr = ix.func('parser._get_segment_reference')
+    gr_entry = gr
+    # the search itself may stand behind a wrapper of that name: follow a direct call that hands both parameters on
+    if gr is not None and not any(isinstance(n, (ast.For, ast.While)) for n in own_nodes(gr.node)):
+        for n in own_nodes(gr.node):
+            if isinstance(n, ast.Call) and isinstance(n.func, ast.Name) and n.func.id in gr.module.functions and \
+                    [norm(a) for a in n.args] == gr.params[:len(n.args)] and len(n.args) == len(gr.params):
+                gr = gr.module.functions[n.func.id]
+                break
     chk.rule('C08-S', 'stack/cursor co-movement: the reference stack is popped exactly where the cursor moves to its parent; '
                       'the cursor moves into a new group only after that group was attached')
     chk.rule('C08-B', 'push/pop balance of the recursive search: a pushed group reference is popped again unless the '
@@ -118,6 +126,14 @@ def run(chk):
     chk.rule('C08-E', 'both modes decode a segment line with the same parser and the same context arguments')
     chk.rule('C08-A', 'groups are created only from (name, reference) pairs on the stack, and the stack holds only '
                       'children declared as groups')
+
+    chk.rule('C08-P', 'the group search keeps no state between calls: where a segment lands depends on the message and its structure, '
+                      'not on what the process parsed before')
+    from . import codelemmas as _clp
+    np_ = _clp.no_process_state(chk, c, 'C08-P', sorted({'parser.parse_segments', gr_entry.qualname, gr.qualname, 'parser.parse_segment',
+                                                         'core.Group.parse_children', 'core.Message.parse_children'}),
+                                'the group a segment is attached to')
+    chk.floor('group-search functions examined for process state', np_, 4)
 
     # ---- S
     stack = None
